@@ -1042,6 +1042,6 @@ func CheckC13(c *C13Case, st *Stats) error {
 
 func init() {
 	Register("C13",
-		"native trees of map[string]any / []any / scalars (depth <= 4, empties and nil maps/slices included, floats including NaN and the infinities, keys that start with or contain a sigil, in one case of five all strings and keys re-encoded to bytes that are not valid UTF-8) with typed flavours ([]string, []int, map[string]float64, ...) and sized numbers (int8, uint16, int32, int64, float32) where the content allows; the container is built with NewObjectFrom/NewListFrom; one case in six additionally converts a []Object / []List / map[string]Object / map[string]List source (directly or nested in a []any / map[string]any) whose entries are containers or nil interface values (non-nil entries stored by reference, nil entries become nil elements, exports plain and equal, no shared slots). Oracle: container content == tree; NativeDict/NativeSlice hold only map[string]any, []any and canonical scalars (reflective walk) and equal the tree bit-exactly (also for a container built with Add/Set); Dict()/Slice() have exactly the keys/indices with entries == Get (identity for containers). One case in eight converts a source in which a []any occurs together with a prefix and a suffix re-slice of it (one backing array) and one map occurs twice. Then 1-6 modifications of one of four parties (container at any nested node, including re-keying an object and emptying and refilling it; native export at any nested map/slice; Dict/Slice export; the source map/slice at any nested level): after each, every OTHER party's snapshot is unchanged. After every modification fresh exports must describe the container as it is then. One case in six additionally stores one container instance at two positions, and wraps nested containers in user-defined derived types: the native export must still be plain data equal to the content. Non-trivial = tree depth >= 2 and at least one applied modification, or the shared-instance variant. Distinct = distinct FNV-64a hash of the case JSON.",
+		"native trees of map[string]any / []any / scalars (depth <= 4, empties and nil maps/slices included, floats including NaN and the infinities, keys that start with or contain a sigil, in one case of five all strings and keys re-encoded to bytes that are not valid UTF-8) with typed flavours ([]string, []int, map[string]float64, ...) and sized numbers (int8, uint16, int32, int64, float32) where the content allows; the container is built with NewObjectFrom/NewListFrom; one case in six additionally converts a []Object / []List / map[string]Object / map[string]List source (directly or nested in a []any / map[string]any) whose entries are containers or nil interface values (non-nil entries stored by reference, nil entries become nil elements, exports plain and equal, no shared slots). Oracle: container content == tree; NativeDict/NativeSlice hold only map[string]any, []any and canonical scalars (reflective walk) and equal the tree bit-exactly (also for a container built with Add/Set); Dict()/Slice() have exactly the keys/indices with entries == Get (identity for containers). One case in eight converts a source in which a []any occurs together with a prefix and a suffix re-slice of it (one backing array) and one map occurs twice. Then 1-6 modifications of one of four parties (container at any nested node, including re-keying an object and emptying and refilling it; native export at any nested map/slice; Dict/Slice export; the source map/slice at any nested level): after each, every OTHER party's snapshot is unchanged. After every modification fresh exports must describe the container as it is then. One case in six additionally stores one container instance at two positions, and wraps nested containers in user-defined derived types: the native export must still be plain data equal to the content. Non-trivial = tree depth >= 2 and at least one applied modification, or the shared-instance variant. Distinct = distinct FNV-64a hash of the case JSON. In the shared-instance variant every container of the tree (both parents of the shared one included) is exported on its own, the shared container is changed through its own handle, everything is exported again, the change is undone and everything is exported a third time: each export must describe its container as it is then.",
 		GenC13, CheckC13)
 }
